@@ -24,7 +24,7 @@ LitF(b, f) == b \o f
 A == 97
 
 Obj(id, caps) == TObj(id, caps, <<SSafeString(<<115, 102>>), SUnsafeString(P(id + 50))>>,
-                      <<SWrite(<<102, 109>> \o P(id + 60))>>, P(id + 70), <<>>)
+                      <<SWrite(<<102, 109>> \o P(id + 60)), SWriteStr(P(id + 61))>>, P(id + 70), <<>>)
 
 ---------------------------------------------------------------------------
 \* slice "smoke": hand-picked cases that touch every operator of the model once
@@ -75,15 +75,17 @@ RegObj(i) == TObj(i, {"REG"}, <<>>, <<>>, <<>>, <<>>)
 SMObj(i)  == TObj(i, {"SM"}, <<>>, <<>>, P(i), <<>>)
 StObj(i)  == TObj(i, {"ST"}, <<>>, <<>>, P(i), <<>>)
 ErObj(i)  == TObj(i, {"ER"}, <<>>, <<>>, P(i), <<>>)
+\* a SafeValue that is also a SafeFormatter calling back into the printer (exercises nested printers under an override)
+SVSF(i)   == TObj(i, {"SV", "SF"}, <<SSafeString(P(600 + i)), SPrint(<<TSafe(i + 2, TInt(i + 1, 5))>>)>>, <<>>, <<>>, <<>>)
 SafeStr(i) == TSafe(i, TStr(i + 1, P(i + 1)))
 SafeInt(i) == TSafe(i, TInt(i + 1, 4 + i))
 Leaf(kind, i) == CASE kind = "ustr" -> UStr(i) [] kind = "uint" -> UInt(i) [] kind = "sv" -> SVObj(i)
                    [] kind = "svstr" -> SVStr(i) [] kind = "reg" -> RegObj(i) [] kind = "sm" -> SMObj(i)
                    [] kind = "st" -> StObj(i) [] kind = "er" -> ErObj(i) [] kind = "nil" -> TNil(i)
                    [] kind = "safestr" -> SafeStr(i) [] kind = "safeint" -> SafeInt(i)
-                   [] kind = "bool" -> TBool(i) [] kind = "float" -> TFloat(i)
-LeafKinds  == {"ustr", "uint", "sv", "svstr", "reg", "sm", "st", "er", "nil", "safestr", "safeint", "bool", "float"}
-QLeafKinds == {"ustr", "uint", "sv", "reg", "nil", "safestr", "st"}
+                   [] kind = "bool" -> TBool(i) [] kind = "float" -> TFloat(i) [] kind = "svsf" -> SVSF(i)
+LeafKinds  == {"ustr", "uint", "sv", "svstr", "reg", "sm", "st", "er", "nil", "safestr", "safeint", "bool", "float", "svsf"}
+QLeafKinds == {"ustr", "uint", "sv", "svstr", "reg", "nil", "safestr", "st", "svsf"}
 
 \* container shapes around two leaves a (ids 10..) and b (ids 20..); container ids 30..
 Shape(sh, a, b) ==
@@ -185,7 +187,9 @@ PanObjs(pl) == {
   TObj(1, {"FM"}, <<>>, <<SDiscover, SSafeString(P(600)), SPanic(pl)>>, <<>>, <<>>),
   TObj(1, {"ST", "NILP"}, <<>>, <<>>, <<>>, <<>>), TObj(1, {"SF", "NILP"}, <<>>, <<>>, <<>>, <<>>), TObj(1, {"ER", "FM", "NILP"}, <<>>, <<>>, <<>>, <<>>)
 }
+PanTwin == TObj(97, {"ST"}, <<>>, <<>>, <<>>, <<TStr(98, P(98))>>)        \* a second panicking operand in the same call
 PanCtx(o) == {<<o>>, <<TSafe(90, o)>>, <<TUnsafe(90, o)>>, <<TSlice(91, <<UInt(92), o, UStr(93)>>)>>,
+              <<TSlice(91, <<o, PanTwin>>)>>, <<TStruct(91, <<PanTwin, o>>, <<FALSE, FALSE>>)>>,
               <<TStruct(91, <<o, UStr(93)>>, <<FALSE, TRUE>>)>>, <<TStruct(91, <<UStr(93), o>>, <<FALSE, TRUE>>)>>}
 PanicRoots == PanPayloads
 PanicExpand(pl) == UNION {UNION {{Case("Sprintf", Around(f), ts, <<>>) : f \in {Fv, Fd, FsharpV, F6v}}
@@ -213,7 +217,7 @@ ErrOperand(kind, i) ==
     [] kind = "st"     -> StObj(i)
     [] kind = "erpan"  -> TObj(i, {"ER"}, <<>>, <<>>, <<>>, <<TStr(i + 1, P(i + 1))>>)
 ErrKinds  == {"er", "erfm", "ersf", "safe", "unsafe", "ernil", "nil", "int", "str", "st", "erpan"}
-QErrKinds == {"er", "erfm", "safe", "unsafe", "nil", "int", "str"}
+QErrKinds == {"er", "erfm", "safe", "unsafe", "nil", "int", "str", "st"}
 ErrRoots == LET ks == IF Slice = "errorf" THEN ErrKinds ELSE QErrKinds IN
             {<<>>} \cup {<<ErrOperand(k1, 10)>> : k1 \in ks} \cup {<<ErrOperand(k1, 10), ErrOperand(k2, 20)>> : k1 \in ks, k2 \in ks}
 ErrExpand(ts) == {Case("Errorf", f, ts, <<>>) : f \in (IF Slice = "errorf" THEN ErrFormats ELSE QErrFormats)}
@@ -246,6 +250,9 @@ HookPos(pos, e) ==
 HookPositions == {"top", "safe", "unsafe", "slice", "mapval", "mapkey", "fieldE", "fieldu", "ptr", "inUnsafe"}
 HookRoots == HookKinds \X HookPositions
 HookExpand(r) == LET ts == HookPos(r[2], HookErr(r[1], 10)) IN
+                 \* (two operands: a bad verb on nil, a bad verb on a string, then the error)
+                 {Case("Sprintf", Fd \o <<124>> \o f, <<TNil(46)>> \o ts, <<>>) : f \in {Fv, Fs}} \cup
+                 {Case("Sprintf", FZ \o <<124>> \o Fv, <<UStr(47)>> \o ts, <<>>)} \cup
                  {Case("Sprintf", Around(f), ts, <<>>) : f \in {Fv, Fs, Fd, Fq, Fx, FplusV, FsharpV, F6v}}
                  \cup {Case("Sprint", <<>>, ts, <<>>), Case("Errorf", Around(Fw), ts, <<>>), Case("Errorf", Fw \o Fw, ts \o ts, <<>>)}
 
